@@ -293,7 +293,7 @@ pub fn run_c20(case: &Case) -> Outcome {
     let m = &case.model;
     let mut out = Outcome::new(m);
     let mut r = SmallRng::seed_from_u64(case.sub);
-    let cfg = Config::random(&mut r);
+    let cfg = Config::random_progressing(&mut r);
     cfg.label(&mut out);
     let obj = gen::gen_view(&mut r, m, false, true);
     let optimise = r.gen_bool(0.3);
@@ -631,6 +631,7 @@ pub fn run_c06(case: &Case) -> Outcome {
             let tag = if c.0.taggable() { Some(i as u32 + 1) } else { None };
             if post_con(&mut solver, &xs, c, tag).is_err() {
                 post_err = true;
+                o.class(format!("proof.post_err.{}", if c.0.taggable() { "propagator" } else { "clause" }));
                 break;
             }
         }
@@ -690,6 +691,9 @@ pub fn run_c06(case: &Case) -> Outcome {
     if out.skip.is_some() {
         cleanup();
         return out;
+    }
+    if verdict == "unsat-at-post" {
+        out.class("proof.unsat-at-post");
     }
     let expected_verdict = if optimise { "optimal" } else { "unsat" };
     if verdict != expected_verdict && verdict != "unsat-at-post" {
